@@ -22,11 +22,14 @@ META = dict(
           "chaiscript_parser.hpp on every run and are exactly C's [operator_table_is_C, operator_function_shape, binary_levels_disjoint]; for EVERY well-formed expression tree "
           "(atoms, prefix, binary of any level, conditionals; any size and nesting) the model of Operator(0) rebuilds exactly the tree from its token string printed with the "
           "fewest parentheses C allows and stops before whatever follows [precedence_roundtrip, chai_precedence_roundtrip: induction over the tree with a descent lemma over the "
-          "levels]; chains of assignments (the twelve symbols of Equation(), regenerated [assignment_symbols_are_C]) nest to the right around such expressions [equation_roundtrip]; so two different trees never share a token string [tokens_determine_tree]; grouping spelled out on the table [grouping_on_chai_table]. Tie: (C) printed trees "
+          "levels]; chains of assignments (the twelve symbols of Equation(), regenerated [assignment_symbols_are_C]) nest to the right around such expressions [equation_roundtrip]; so two different trees never share a token string [tokens_determine_tree]; grouping spelled out on the table [grouping_on_chai_table]. BETWEEN BYTES AND TOKENS [Props/C03Sym over Model/Sym = Symbol()'s look-ahead rule; the function's text and the symbol alphabet are regenerated "
+          "and pinned: symbol_function_shape]: for every binary / ternary operator followed directly by every prefix operator, '(' or an identifier, Symbol() accepts the "
+          "operator exactly when C's maximal munch reads two tokens [glued_operators_split_as_in_C, kernel evaluation of the whole table]; the ':' of ?: is the exception "
+          "[colon_glued_to_sign_counterexample = known finding COLON_GLUED_TO_SIGN]; Equation() switches the look-ahead off [assignment_symbols_ignore_lookahead]. Tie: (C) printed trees "
           "and token soups (redundant / missing parentheses, doubled operators) through the real parser without optimizer, `chaimodel prec` and an independent precedence-climbing "
           "reference with C's table: trees, node kinds (Logical_And / Logical_Or / Binary / If / Prefix) and accept / reject must agree."),
     note=("Trusted: the two Python reference interpreters (independent of the engine and of each other), gen/coregen.py, gen/progs.py, harness/evalprog.cpp; Lean kernel and "
-          "Model/Chai for part (B) and the laws; Model/Prec (tokens stand for what Symbol/Id deliver: white space, maximal munch and the statement grammar around Operator are not in it), extract/e_prec.py, gen/precgen.py. Integer values are kept inside int range (runs that leave it are skipped: C05 covers arithmetic); size() is wrapped in int()."),
+          "Model/Chai for part (B) and the laws; Model/Prec (tokens stand for what Symbol/Id deliver; Model/Sym is the look-ahead rule of Symbol() alone; white space is M-WS of C01; the statement grammar around Equation() is not modelled), extract/e_prec.py, gen/precgen.py. Integer values are kept inside int range (runs that leave it are skipped: C05 covers arithmetic); size() is wrapped in int()."),
     design_ref="DESIGN.md §6 C03")
 
 
@@ -113,7 +116,7 @@ def prec_stage(ctx, n):
 
 def run(ctx):
     C.run_extractor(ctx, "operator tables and the shape of Operator()", e_prec, "Prec.lean")
-    status, text, rc = C.lean_obligations(ctx, ["C03", "C03Prec"])
+    status, text, rc = C.lean_obligations(ctx, ["C03", "C03Prec", "C03Sym"])
     have_driver = (rc == 0 and os.path.exists(C.driver_path())) or C.ensure_driver(ctx, [])
     with ctx.timer("harness_build"):
         exe, log = C.harness_build("evalprog")
